@@ -1,6 +1,7 @@
 package vh
 
 import (
+	sshkey "github.com/theparanoids/ysshra/sshutils/key"
 	"context"
 	"crypto/rand"
 	"crypto/x509"
@@ -169,6 +170,8 @@ type HandlerConf struct {
 	KeyIdentifiers  map[string]string
 	OmitValidity    bool
 	OmitIdentifiers bool
+	// KeyLabel: the handler's "key_label" option ("" = left out)
+	KeyLabel string
 }
 
 // WriteGensignConfig writes a configuration file and loads it with the repository's loader.
@@ -176,6 +179,9 @@ func WriteGensignConfig(dir string, hc HandlerConf) (*config.GensignConfig, erro
 	h := map[string]any{"pub_key_dir": hc.PubKeyDir}
 	if !hc.OmitValidity {
 		h["cert_validity_sec"] = hc.ValiditySec
+	}
+	if hc.KeyLabel != "" {
+		h["key_label"] = hc.KeyLabel
 	}
 	if !hc.OmitIdentifiers {
 		h["key_identifiers"] = hc.KeyIdentifiers
@@ -321,6 +327,12 @@ type FakeHandler struct {
 	NKeys   int
 	NReqs   int
 	GenErr  bool
+	// GenErrKind: with GenErr, the kind of error Generate fails with: "" (generation) | conf | untyped
+	GenErrKind string
+	// KeyAlgo (with Agent): the key pair algorithm of the agent keys, 0 = the package default, otherwise
+	// key.PublicKeyAlgo + 1; PrivLabel: the private key's label ("" = default)
+	KeyAlgo   int
+	PrivLabel string
 	Keys    []*FakeAgentKey
 	Refresh func(*agent.Key) bool
 }
@@ -391,6 +403,12 @@ func (h *FakeHandler) Generate(p *csr.ReqParam) ([]csr.AgentKey, error) {
 		panic("verif: Generate panics")
 	}
 	if h.GenErr {
+		switch h.GenErrKind {
+		case "conf":
+			return nil, gensign.NewErrorWithMsg(gensign.HandlerConfErr, h.Name(), "verif: not configured for the requested CA key algorithm")
+		case "untyped":
+			return nil, fmt.Errorf("verif: generation failed")
+		}
 		return nil, gensign.NewErrorWithMsg(gensign.HandlerGenCSRErr, h.Name(), "verif: generation failed")
 	}
 	nk, nr := h.NKeys, h.NReqs
@@ -411,6 +429,12 @@ func (h *FakeHandler) Generate(p *csr.ReqParam) ([]csr.AgentKey, error) {
 			own := fmt.Sprintf("verif.%s.k%d-", h.ID, i)
 			opt.CertLabel = own + "cert"
 			opt.PrivateKeyValiditySec = 7200
+			if h.KeyAlgo > 0 {
+				opt.PublicKeyAlgo = sshkey.PublicKeyAlgo(h.KeyAlgo - 1)
+			}
+			if h.PrivLabel != "" {
+				opt.PrivateKeyLabel = h.PrivLabel
+			}
 			extra := h.Refresh
 			opt.KeyRefreshFilter = func(k *agent.Key) bool {
 				return strings.Contains(k.Comment, own) || (extra != nil && extra(k))
